@@ -41,6 +41,8 @@ type SigOpts struct {
 	Name  string `json:"name"`
 	Group string `json:"group"`
 	As    string `json:"as"`
+	Loc   string `json:"loc"`
+	Cb    bool   `json:"cb"`
 }
 
 type SigP struct {
@@ -236,6 +238,22 @@ func sigProvideOpts(o SigOpts) []dig.ProvideOption {
 	}
 	if o.Group != "" {
 		opts = append(opts, dig.Group(o.Group))
+	}
+	switch o.Loc {
+	case "pc0":
+		opts = append(opts, dig.LocationForPC(0))
+	case "pc1":
+		opts = append(opts, dig.LocationForPC(1))
+	case "real":
+		opts = append(opts, dig.LocationForPC(reflect.ValueOf(sigProvideOpts).Pointer()))
+	}
+	if o.Cb {
+		opts = append(opts, dig.WithProviderCallback(func(ci dig.CallbackInfo) {
+			_ = ci.Name
+			if ci.Error != nil {
+				_ = ci.Error.Error()
+			}
+		}))
 	}
 	switch o.As {
 	case "I0":
